@@ -41,7 +41,63 @@ func (i *interp) sha256Term(bs []*term.T) []*term.T {
 	return out
 }
 
+// streaming SHA-256 (sha256.New(): Write ... Sum): the digest object is a
+// pointer cell; the bytes written so far are kept in a side table.
+func (i *interp) shaBuf(p value) *[]*term.T {
+	cell, ok := p.(*value)
+	if !ok || cell == nil {
+		unsupported("sha256 digest receiver %T", p)
+	}
+	if i.shaState == nil {
+		i.shaState = map[*value]*[]*term.T{}
+	}
+	b := i.shaState[cell]
+	if b == nil {
+		b = &[]*term.T{}
+		i.shaState[cell] = b
+	}
+	return b
+}
+
 func init() {
+	const dg = "(*crypto/internal/fips140/sha256.Digest)."
+	intrinsics["crypto/internal/fips140/sha256.New"] = func(i *interp, caller *frame, fn *ssa.Function, args []value) value {
+		var cell value = i.zero(deref(fn.Signature.Results().At(0).Type()))
+		p := &cell
+		i.shaBuf(p)
+		return p
+	}
+	intrinsics[dg+"Reset"] = func(i *interp, caller *frame, fn *ssa.Function, args []value) value {
+		*i.shaBuf(args[0]) = nil
+		return nil
+	}
+	intrinsics[dg+"Size"] = func(i *interp, caller *frame, fn *ssa.Function, args []value) value { return i.ctx.BV(64, 32) }
+	intrinsics[dg+"BlockSize"] = func(i *interp, caller *frame, fn *ssa.Function, args []value) value { return i.ctx.BV(64, 64) }
+	intrinsics[dg+"Write"] = func(i *interp, caller *frame, fn *ssa.Function, args []value) value {
+		b := i.shaBuf(args[0])
+		in := args[1].([]value)
+		for _, e := range in {
+			*b = append(*b, e.(*term.T))
+		}
+		return tuple{i.ctx.BV(64, uint64(len(in))), iface{}}
+	}
+	intrinsics[dg+"Sum"] = func(i *interp, caller *frame, fn *ssa.Function, args []value) value {
+		d := i.sha256Term(*i.shaBuf(args[0]))
+		// append in place when the capacity allows, exactly like the real Sum
+		// (callers write h.Sum(result[:0]) to fill an array)
+		var out []value
+		if args[1] != nil {
+			out = args[1].([]value)
+		}
+		for _, t := range d {
+			out = append(out, t)
+		}
+		return out
+	}
+	// CRC tables built in package initialisers (checksums themselves are not modelled)
+	intrinsics["hash/crc32.MakeTable"] = func(i *interp, caller *frame, fn *ssa.Function, args []value) value {
+		return (*value)(nil)
+	}
 	intrinsics["crypto/sha256.Sum256"] = func(i *interp, caller *frame, fn *ssa.Function, args []value) value {
 		in := args[0].([]value)
 		bs := make([]*term.T, len(in))
